@@ -141,6 +141,7 @@ type Stream struct {
 type Condition struct {
 	Class   string // abstract: error | division-by-zero | unbound-variable | type-error | control-error | program-error
 	Message string
+	Alt     []string // classes of the errors that were in flight when a cleanup form signalled this one
 }
 
 // Show renders a value in the notation of harness/lisp.Show.
@@ -219,6 +220,12 @@ type Mutations struct {
 	// GoBackwardIgnored: a go to a tag that precedes the current statement
 	// ends the tagbody instead of looping.
 	GoBackwardIgnored bool
+	// CleanupRerunOnCleanupError: when a cleanup form signals an error while the
+	// unwind-protect is left normally or by return-from/go, the cleanup forms
+	// are run again from the start (up to the failing one).
+	CleanupRerunOnCleanupError bool
+	// CleanupContinuesAfterError: the cleanup forms after a failing one still run.
+	CleanupContinuesAfterError bool
 	// LetSequential: let binds like let* (not an exit bug; used by C01-like checks).
 	LetSequential bool
 }
@@ -311,6 +318,7 @@ type Outcome struct {
 	Trace    []string
 	ErrClass string // "" = completed normally
 	ErrMsg   string
+	ErrAlt   []string // other acceptable classes (errors that were in flight when a cleanup form failed)
 	Deadlock bool
 	Budget   bool
 }
@@ -323,7 +331,7 @@ func (in *Interp) Run(forms []Node) (out Outcome) {
 			out.Value = nil
 			switch t := r.(type) {
 			case *Condition:
-				out.ErrClass, out.ErrMsg = t.Class, t.Message
+				out.ErrClass, out.ErrMsg, out.ErrAlt = t.Class, t.Message, t.Alt
 			case *blockExit, *goExit:
 				// cannot happen: targets are resolved lexically and are active
 				out.ErrClass, out.ErrMsg = "control-error", "exit escaped to top level"
@@ -811,7 +819,7 @@ func (in *Interp) unwindProtect(protected Node, cleanup []Node, e *env) (v Value
 			}
 		}
 		for i := 0; i < runs; i++ {
-			in.progn(cleanup, e) // an exit out of a cleanup form supersedes r
+			in.runCleanup(cleanup, e, r) // an exit or error out of a cleanup form supersedes r
 		}
 		if r != nil {
 			if c, ok := r.(*Condition); ok && in.Mut.ErrorClassLost {
@@ -821,6 +829,54 @@ func (in *Interp) unwindProtect(protected Node, cleanup []Node, e *env) (v Value
 		}
 	}()
 	return in.eval(protected, e)
+}
+
+// runCleanup evaluates the cleanup forms of an unwind-protect that is being
+// left by `leaving` (nil = normally). An error signalled by a cleanup form
+// ends the cleanup (the forms after it do not run), replaces whatever exit was
+// in progress and propagates outward. If an error was already in flight the
+// new condition remembers its class in Alt (which of the two classes surfaces
+// is not pinned down).
+func (in *Interp) runCleanup(cleanup []Node, e *env, leaving any) {
+	defer func() {
+		r2 := recover()
+		if r2 == nil {
+			return
+		}
+		c2, isErr := r2.(*Condition)
+		if !isErr {
+			panic(r2)
+		}
+		if c1, inFlight := leaving.(*Condition); inFlight {
+			c2 = &Condition{Class: c2.Class, Message: c2.Message, Alt: append(append([]string{c1.Class}, c1.Alt...), c2.Alt...)}
+		} else if in.Mut.CleanupRerunOnCleanupError {
+			in.progn(cleanup, e) // signals again at the same form
+		}
+		panic(c2)
+	}()
+	if in.Mut.CleanupContinuesAfterError {
+		var first any
+		for _, f := range cleanup {
+			func() {
+				defer func() {
+					if r := recover(); r != nil {
+						if _, isErr := r.(*Condition); !isErr {
+							panic(r)
+						}
+						if first == nil {
+							first = r
+						}
+					}
+				}()
+				in.eval(f, e)
+			}()
+		}
+		if first != nil {
+			panic(first)
+		}
+		return
+	}
+	in.progn(cleanup, e)
 }
 
 func (in *Interp) doLoop(star bool, args List, e *env) Value {
